@@ -33,7 +33,9 @@ RULE = ('edge lists: exhaustive lists of <= 2 edges over 3 identifiers (int and 
         'containing another candidate delimiter, more than n_scan rows, with and without final newline, numeric (also beyond '
         '2^53) and string identifiers, delimiter given / given as sep / inferred, the three layouts (all with the expected '
         'edges as a spec line; files whose delimiter is genuinely ambiguous: run line only); datasets with csr / ndarray / '
-        'pickled attributes saved and loaded through absolute / relative / ~ / pathlib / trailing-slash folder names, the '
+        'pickled attributes saved and loaded through absolute / relative / ~ / pathlib / trailing-slash folder names, into '
+        'folders that hold the bundles of 0..3 earlier saves (other attributes, pickled str / Dataset / list / dict) and stray '
+        'files of every extension and a sub-folder, the '
         'bundle functions into a non-empty folder; path pairs; in-memory tar archives with hostile member names and with '
         'symbolic-link / hard-link / directory members, everything created under the scratch root being observed without '
         'following links; GraphML documents (weight key of type int / long / float / double / boolean or absent, node and '
@@ -410,7 +412,7 @@ def same_value(a, b):
     return a == b
 
 
-def persist_case(attrs, rng, tag, absolute=True):
+def persist_case(attrs, rng, tag, absolute=True, history=None):
     """attrs: list of (key, kind, payload id). save to a scratch folder, list it, load it back."""
     from sknetwork.data.base import Dataset
     import sknetwork.data  # noqa: F401
@@ -421,10 +423,32 @@ def persist_case(attrs, rng, tag, absolute=True):
     for key, kind, pid in attrs:
         values[pid] = make_payload(kind, pid, rng)
         ds[key] = values[pid]
-    # a stale file from an earlier save must not survive
+    # `save` is a state machine over the folder: whatever the folder held before -- the bundles of earlier saves
+    # (`history`: attribute lists, pickled kinds included), files of every extension, a sub-folder -- the folder
+    # after this save holds exactly the files of this dataset
     os.makedirs(folder, exist_ok=True)
+    import pickle
     with open(os.path.join(folder, 'stale.npy'), 'wb') as fh:
         np.save(fh, np.arange(2))
+    sparse.save_npz(os.path.join(folder, 'stalem.npz'), sparse.csr_matrix(np.eye(2)))
+    with open(os.path.join(folder, 'stalep.p'), 'wb') as fh:
+        pickle.dump('left over', fh)
+    os.makedirs(os.path.join(folder, 'subdir'), exist_ok=True)
+    with open(os.path.join(folder, 'subdir', 'inner.npy'), 'wb') as fh:
+        np.save(fh, np.arange(3))
+    for hi, hattrs in enumerate(history or []):
+        prev = Dataset()
+        for key, kind, pid in hattrs:
+            prev[key] = make_payload(kind, 100 + 10 * hi + pid, rng)
+        try:
+            L.save(folder, prev)
+        except Exception:      # noqa: BLE001 - the observation is about the last save
+            pass
+    before = []
+    for fn in sorted(os.listdir(folder)):
+        if os.path.isfile(os.path.join(folder, fn)):
+            before.append('%s:%s:0' % (enc_str(fn), {'.npz': 'csr', '.npy': 'ndarray'}.get(os.path.splitext(fn)[1], 'other')))
+    before_tok = ','.join(before) or '-'
     cwd = os.getcwd()
     home = os.environ.get('HOME')
     form = {True: 'abs', False: 'rel'}.get(absolute, absolute)
@@ -462,9 +486,11 @@ def persist_case(attrs, rng, tag, absolute=True):
     ds_tok = ','.join('%s:%s:%d' % (enc_str(k), kind, pid) for k, kind, pid in attrs) or '-'
     sig = {'entry': 'save', 'dotted_key': any('.' in k for k, _, _ in attrs),
            'bad_key': any(k == '' or '/' in k for k, _, _ in attrs), 'folder_form': form}
-    desc = {'f': 'save_load', 'attrs': [list(a) for a in attrs], 'absolute': absolute}
+    desc = {'f': 'save_load', 'attrs': [list(a) for a in attrs], 'absolute': absolute,
+            'history': [[list(a) for a in h] for h in (history or [])]}
+    sig['history'] = len(history or [])
     if err is not None:
-        cases.append(Case(('save', ds_tok), sig, 'c18.save ' + ds_tok, err, None, False, desc))
+        cases.append(Case(('save', ds_tok), sig, 'c18.save_into %s %s' % (before_tok, ds_tok), err, None, False, desc))
         shutil.rmtree(folder, ignore_errors=True)
         return cases, None
     files = sorted(os.listdir(folder))
@@ -488,7 +514,7 @@ def persist_case(attrs, rng, tag, absolute=True):
             pids = []
         ftoks.append('%s:%s:%d' % (enc_str(fn), ext_kind.get(ext, 'other'), pids[0] if pids else 999))
     impl_save = 'ok ' + (','.join(ftoks) if ftoks else '-')
-    cases.append(Case(('save', ds_tok), sig, 'c18.save ' + ds_tok, impl_save, None, len(attrs) >= 2, desc, canon='files'))
+    cases.append(Case(('save', ds_tok), sig, 'c18.save_into %s %s' % (before_tok, ds_tok), impl_save, None, len(attrs) >= 2, desc, canon='files'))
     # load
     try:
         try:
@@ -1002,14 +1028,22 @@ def gen_persist_cases(ctx, out, earlies):
     names = ['adjacency', 'biadjacency', 'names', 'names_row', 'labels', 'meta', 'position', 'x', 'A', 'a_b', 'k2']
     kinds = ['csr', 'ndarray', 'other']
     t = 0
-    for _ in range(60 if quick else 1500):
+    for _ in range(150 if quick else 2500):
         keys = rng.sample(names, rng.randint(0, 5))
         attrs = [(k, rng.choice(kinds), i) for i, k in enumerate(keys)]
         t += 1
-        cs, e = persist_case(attrs, rng, str(t), absolute=rng.choice([True, True, True, False, 'home', 'pathlib', 'trailing']))
+        # earlier saves into the same folder: datasets with attributes (pickled ones: str / Dataset / list / csc / float /
+        # dict) that the last dataset may lack
+        history = []
+        for _h in range(rng.choice([0, 1, 1, 2, 3])):
+            hkeys = rng.sample(names, rng.randint(1, 6))
+            history.append([(k, rng.choice(kinds + ['other']), i) for i, k in enumerate(hkeys)])
+        cs, e = persist_case(attrs, rng, str(t), absolute=rng.choice([True, True, True, False, 'home', 'pathlib', 'trailing']),
+                             history=history)
         out.extend(cs)
         earlies.append((cs[-1], e))
         ctx.count('persist:plain-keys')
+        ctx.count('persist:earlier-saves-into-the-folder', len(history))
     # keys outside the hypothesis of the round trip: dots, extension-like, separators, empty (run lines only)
     odd = [[('a.b', 'ndarray', 0)], [('m.npz', 'csr', 0), ('m', 'csr', 1)], [('v.npy', 'ndarray', 0)], [('p.p', 'other', 0)],
            [('x', 'csr', 0), ('x.npz', 'other', 1)], [('sub/k', 'ndarray', 0)], [('a.npy', 'csr', 0)]]
@@ -1194,7 +1228,8 @@ def cases_of_desc(d, rng=None):
         c, e = csv_case(text, lines, d['args'], d['flags'], edges, 'replay')
         return [c], [(c, e)]
     if f == 'save_load':
-        cs, e = persist_case([tuple(a) for a in d['attrs']], rng, 'replay', d.get('absolute', True))
+        cs, e = persist_case([tuple(a) for a in d['attrs']], rng, 'replay', d.get('absolute', True),
+                             history=[[tuple(a) for a in h] for h in d.get('history', [])])
         return cs, [(cs[-1], e)]
     if f == 'is_within_directory':
         os.makedirs(d['cwd'], exist_ok=True) if d['cwd'].startswith(SCRATCH_PARENT) else None
@@ -1276,7 +1311,8 @@ def search(ctx, pending):
             for keys in (['a'], ['a', 'b'], ['adjacency', 'names', 'meta']):
                 for kinds in itertools.product(['csr', 'ndarray', 'other'], repeat=len(keys)):
                     k += 1
-                    cs, e = persist_case([(key, kind, i) for i, (key, kind) in enumerate(zip(keys, kinds))], ctx.rng, 's%d' % k)
+                    cs, e = persist_case([(key, kind, i) for i, (key, kind) in enumerate(zip(keys, kinds))], ctx.rng, 's%d' % k,
+                                         history=[[('meta', 'other', 1), ('source', 'other', 0), ('old', 'ndarray', 2), ('m', 'csr', 3)]])
                     out += cs
                     earlies.append((cs[-1], e))
         if entries & {'safe_extract', 'is_within_directory'}:
